@@ -58,6 +58,47 @@ class post_align:
     }
 
 
+@contract("acryo.loader._base:LoaderBase._post_align_multi_templates", props=["C01", "C03", "C06"])
+class post_align_multi:
+    """the multi-template / rotation-search write-back: same pose update and features as _post_align (scale applied to
+    the pixel shift) and, in addition, the label column: label of result i, reduced modulo `remainder` when the
+    candidates were K rotations x `remainder` templates (template-minor order)"""
+    params = dict(self=TLoader(TMolecules(features=["f0"])), results=TAlignResults("self_mole_N"), shape=_SHAPE,
+                  remainder=T.OneOf(-1, T.Int(lo=2)), label_name=T.Const("labels"))
+    requires = ["forall(lambda i: results[i].label >= 0, (0, %s))" % _N]
+    helpers = _H
+    imports = NATIVE_IMPORTS
+    native_call = "args['self']._post_align_multi_templates(args['results'], args['shape'], args['remainder'], args['label_name'])"
+    native = {
+        "count": "len(result.molecules) == len(self.molecules)",
+        "position": "np.allclose(result.molecules.pos, self.molecules.pos + self.scale * np.einsum('nab,nb->na', "
+                    "self.molecules.rotator.as_matrix(), np.stack([r.shift for r in results])), atol=1e-3)",
+        "orientation": "np.allclose(result.molecules.rotator.as_matrix(), self.molecules.rotator.as_matrix() @ "
+                       "_Rotation.from_quat(np.stack([r.quat for r in results])).as_matrix(), atol=1e-4)",
+        "score_feature": "np.allclose(result.molecules.features['score'].to_numpy(), [r.score for r in results], atol=1e-5)",
+        "shift_features": "np.allclose(result.molecules.features['align-dz'].to_numpy(), [r.shift[0] * self.scale for r in results], atol=1e-4)",
+        "label_feature": "list(result.molecules.features['labels']) == [(r.label % remainder if remainder > 1 else r.label) for r in results]",
+        "own_features_kept": "list(result.molecules.features['f0']) == list(self.molecules.features['f0'])",
+        "frame": "True",
+    }
+    ensures = {
+        "count": "result._molecules._pos.shape[0] == %s" % _N,
+        "position": "forall(lambda i: all(result._molecules._pos[i, a] == old(self._molecules)._pos[i, a] + self._scale * "
+                    "matvec(M(old(self._molecules)._rotator, i), (results[i].shift[0], results[i].shift[1], results[i].shift[2]))[a] "
+                    "for a in range(3)), (0, %s))" % _N,
+        "orientation": "forall(lambda i: mateq(M(result._molecules._rotator, i), "
+                       "matmul3(M(old(self._molecules)._rotator, i), qmat(results[i].quat))), (0, %s))" % _N,
+        "score_feature": "forall(lambda i: result._molecules._features['score'].arr[i] == results[i].score, (0, %s))" % _N,
+        "shift_features": "forall(lambda i: result._molecules._features['align-dz'].arr[i] == results[i].shift[0] * self._scale and "
+                          "result._molecules._features['align-dy'].arr[i] == results[i].shift[1] * self._scale and "
+                          "result._molecules._features['align-dx'].arr[i] == results[i].shift[2] * self._scale, (0, %s))" % _N,
+        "label_feature": "forall(lambda i: result._molecules._features['labels'].arr[i] == "
+                         "(results[i].label %% remainder if remainder > 1 else results[i].label), (0, %s))" % _N,
+        "own_features_kept": "forall(lambda i: result._molecules._features['f0'].arr[i] == self._molecules._features['f0'].arr[i], (0, %s))" % _N,
+        "frame": "writes_to(self) == 0 and writes_to(self._molecules) == 0 and result is not self",
+    }
+
+
 # ---------------------------------------------------------------------------
 # C03 / C02: per-molecule task construction
 _PA = "acryo._utils:prepare_affine"
